@@ -1,6 +1,11 @@
 // crate-root verif module (compiled only with --cfg cberner_raptorq_verif)
+#![allow(dead_code, unused_imports)]
 #[path = "/verif/spec/gf.rs"]
 pub mod gf;
+#[path = "/verif/spec/rfc.rs"]
+pub mod rfc;
+#[path = "/verif/spec/rfc_tables.rs"]
+pub mod rfc_tables;
 
 // native replay of a Kani counterexample (concrete playback): the scratch file is written by /verif/lib/kunit.py
 #[cfg(all(kani, cberner_raptorq_verif_playback))]
